@@ -127,6 +127,25 @@ func (ll *Listeners) UnmarshalFlag(data string) error {
 	return nil
 }
 
+// UnmarshalYAML reads the listeners from a configuration file: a list of the same
+// '<channel>~<listen-url>[~<forward-url>]' strings the --listen option takes.
+func (ll *Listeners) UnmarshalYAML(unmarshal func(interface{}) error) error {
+	specs := make([]string, 0)
+	if err := unmarshal(&specs); err != nil {
+		return errors.WithStack(err)
+	}
+
+	res := make(Listeners, 0)
+	for _, spec := range specs {
+		if err := res.UnmarshalFlag(spec); err != nil {
+			return err
+		}
+	}
+
+	*ll = res
+	return nil
+}
+
 // ------ // ------ // ------ // ------ // ------ // ------ // ------ //
 
 // Listener is a high-level implementation that listens to connections and tries to connect to backend upstreams(s).
